@@ -197,6 +197,14 @@ class SyncedDict(SyncedCollection, MutableMapping):
 
         """
         if _mapping_resolver.get_type(data) == "MAPPING":
+            if self._root is not None:
+                # A nested collection must be reset within the current content
+                # of the resource (other parts may have changed meanwhile) and
+                # under the root's locks, like every other write operation.
+                self._validate(data)
+                with self._load_and_save:
+                    self._update(data, _validate=True)
+                return
             self._update(data)
             with self._thread_lock:
                 self._save()
@@ -234,6 +242,13 @@ class SyncedDict(SyncedCollection, MutableMapping):
         return ret
 
     def clear(self):  # noqa: D102
+        if self._root is not None:
+            # A nested collection must be cleared within the current content
+            # of the resource (other parts may have changed meanwhile) and
+            # under the root's locks, like every other write operation.
+            with self._load_and_save:
+                self._data.clear()
+            return
         self._data = {}
         with self._thread_lock:
             self._save()
